@@ -58,7 +58,14 @@ func (s *vSrvStream) RecvMsg(m interface{}) error {
 	s.next++
 	out := m.(*Message)
 	vAssert(out.msgType == requestType, "C13.server-creates-request-type")
-	out.Metadata = r.Metadata
+	// what the codec does (gorumsUnmarshal): the metadata is decoded INTO the message's
+	// metadata object, the payload is a fresh message
+	if out.Metadata == nil {
+		out.Metadata = &ordering.Metadata{}
+	}
+	out.Metadata.MessageID = r.Metadata.MessageID
+	out.Metadata.Method = r.Metadata.Method
+	out.Metadata.Status = r.Metadata.Status
 	out.Message = r.Message
 	return nil
 }
@@ -156,6 +163,12 @@ func VerifC04(conns, reqs, allowNever, allowDisconnect int) {
 			returned[c] = true
 		}()
 	}
+	if allowDisconnect == 2 {
+		// a further service is registered while the server is serving (generated
+		// Register...Server calls after Serve has started): at any point of the run; it
+		// must not delay anybody's requests, whatever the handlers are doing
+		go srv.RegisterHandler("verif.Late", func(ctx ServerCtx, in *Message, finished chan<- *Message) {})
+	}
 	disconnected := make([]bool, conns)
 	if allowDisconnect == 1 {
 		for c := 0; c < conns; c++ {
@@ -175,7 +188,7 @@ func VerifC04(conns, reqs, allowNever, allowDisconnect int) {
 			continue
 		}
 		// every request whose predecessors released has been handled, exactly once, in order
-		vAssert(g.started[c] == expectHandled[c], "C03.server-not-all-handled")
+		vAssert(g.started[c] == expectHandled[c], "C03.server-not-all-handled|C04.request-delayed-although-predecessors-released")
 		vAssert(!returned[c], "C04.stream-ended-early")
 		// replies: one per replying handler, under its own message id, with its status
 		nreplies := 0
@@ -203,13 +216,13 @@ func VerifC04(conns, reqs, allowNever, allowDisconnect int) {
 					} else {
 						vAssert(st.Code() == codes.OK, "C13.ok-status-wrapped")
 						r, ok := m.Message.(*vMsg)
-						vAssert(ok && r.tok == 1000+k && r.node == uint32(c), "C04.reply-routing")
+						vAssert(ok && r.tok == 1000+k && r.node == uint32(c), "C04.reply-routing|C05.reply-with-a-foreign-payload")
 					}
 				}
 			}
-			vAssert(found == 1, "C04.reply-count")
+			vAssert(found == 1, "C04.reply-count|C05.reply-under-a-foreign-message-id")
 		}
-		vAssert(len(streams[c].sent) == nreplies, "C04.spurious-reply")
+		vAssert(len(streams[c].sent) == nreplies, "C04.spurious-reply|C05.reply-nobody-asked-for")
 	}
 	if g.overlap {
 		vReach("released-handler-overlaps-next")
@@ -259,12 +272,14 @@ func c04Impl(g *c04Ghost, ctx ServerCtx, req *vMsg) (*vMsg, error) {
 	case c04ReleaseEarly:
 		release()
 		ctx.Release()
+		c04WorkOn(g)
 		g.done(c, k)
 		return resp, nil
 	case c04ReleaseTwice:
 		release()
 		ctx.Release()
 		ctx.Release()
+		c04WorkOn(g)
 		g.done(c, k)
 		return resp, nil
 	case c04ReleaseHelper:
@@ -276,6 +291,7 @@ func c04Impl(g *c04Ghost, ctx ServerCtx, req *vMsg) (*vMsg, error) {
 		}()
 		ctx.Release() // concurrently from the handler goroutine too
 		<-donech
+		c04WorkOn(g)
 		g.done(c, k)
 		return resp, nil
 	case c04PlainError:
@@ -296,6 +312,14 @@ func c04Impl(g *c04Ghost, ctx ServerCtx, req *vMsg) (*vMsg, error) {
 }
 
 func (g *c04Ghost) done(c, k int) { g.finished[c][k] = true }
+
+// c04WorkOn: a handler that released early goes on working; what it does afterwards
+// (building the reply from the request it was handed) happens at any later time, also
+// after the receive loop has taken the next request off the stream.
+func c04WorkOn(g *c04Ghost) {
+	vAtomic(1, g)
+	vAtomicEnd()
+}
 
 // vHandlerDone: the wrapper of handler j has handed its reply to the stream (handlers that
 // send no reply count as done when their implementation returned).
